@@ -176,7 +176,7 @@ from prov import rule_prov_assert, rule_prov_convert, rule_prov_simplify  # noqa
 from sym import rule_sym_addsub, rule_sym_cmp  # noqa: E402
 
 ERRD_EXEMPT = {
-    ("run_without_cleanup", "jiff::Span::nanoseconds"): {
+    ("*", "jiff::Span::nanoseconds"): {
         "reason": "argument is (seconds.fract() * 1e9).round(), |x| <= 1e9 by construction, inside the setter's range",
         "shape": "fract",
     },
@@ -184,7 +184,7 @@ ERRD_EXEMPT = {
 
 
 def errd_datetime(ctx):
-    return rule_errd(ctx.lib, ["vm::Vm::run_without_cleanup"], ["numbat/src/ffi/datetime.rs", "numbat/src/datetime.rs"], ERRD_EXEMPT, min_fallible=23, min_bodies=17)
+    return rule_errd(ctx.lib, ["vm::Vm::run_without_cleanup"], ["numbat/src/ffi/datetime.rs", "numbat/src/datetime.rs", "*"], ERRD_EXEMPT, min_fallible=23, min_bodies=17)
 
 
 def errd_control(ctx):
